@@ -31,6 +31,7 @@ type consCfg struct {
 	AbortedReverse bool    `json:"abortedReverse"`
 	ReadTimeoutMs  int     `json:"readTimeoutMs"`
 	DoubleClose    bool    `json:"doubleClose"`
+	PanicIc        int     `json:"panicIc"` // 1-based index of a consumer interceptor that panics after logging
 }
 
 type consConsume struct {
@@ -66,12 +67,16 @@ type consScenario struct {
 }
 
 type vConsInterceptor struct {
-	rec   *vRec
-	chain int
+	rec    *vRec
+	chain  int
+	panics bool
 }
 
 func (i *vConsInterceptor) OnConsume(m *ConsumerMessage) {
 	i.rec.Ev("cintercept", kv{"chain": i.chain, "part": int(m.Partition), "off": int(m.Offset)})
+	if i.panics {
+		panic("verif: consumer interceptor panic")
+	}
 }
 
 func batchesJSON(bs []simLogBatch) []kv {
@@ -186,7 +191,7 @@ func runConsumerScenario(t testing.TB, rec *vRec, sc *consScenario) {
 		config.Consumer.IsolationLevel = ReadCommitted
 	}
 	for i := 0; i < cf.Interceptors; i++ {
-		config.Consumer.Interceptors = append(config.Consumer.Interceptors, &vConsInterceptor{rec: rec, chain: i + 1})
+		config.Consumer.Interceptors = append(config.Consumer.Interceptors, &vConsInterceptor{rec: rec, chain: i + 1, panics: cf.PanicIc == i+1})
 	}
 	vUseDialer(config)
 	if err := config.Validate(); err != nil {
